@@ -292,7 +292,7 @@ func (w *c20World) stepThread(th *c20Thread) (spawnedRunning bool) {
 	} else if len(th.calls) > 0 {
 		c := th.calls[0]
 		th.calls = th.calls[1:]
-		if c.name == "finishsucc" {
+		if c.name == "finishsucc" || c.name == "finishfail" {
 			newG = w.expectRelease()
 			if w.busy(w.W) {
 				w.st.Inc("finishsucc_with_worker_busy")
